@@ -331,7 +331,7 @@ reg("C12",
         timeout=900, funcs=_CF) for k in range(8)],
     *[H("c12", "c12_frozen_%d" % k, bounds="rows %d/8 of the frozen snapshot (oracle-data/tls-ciphersuites.frozen.txt): present and unaltered" % k,
         timeout=900, funcs=_CF) for k in range(8)],
-    H("c12", "c12_from_name_neg_a", bounds="same registry name: strict prefix and one-letter case flip find nothing (concrete)", timeout=1500, mem=12, funcs=["TlsCipherSuite::from_name"]),
+    H("c12", "c12_from_name_neg_a", tier="thorough", bounds="same registry name: strict prefix and one-letter case flip find nothing (concrete)", timeout=1500, mem=12, funcs=["TlsCipherSuite::from_name"]),
     H("c12", "c12_from_name_a", bounds="one registry name (seed-selected), concrete: both lookup routes", timeout=1500, mem=12, funcs=["TlsCipherSuite::from_name", "TryFrom<&str>"]),
     H("c12", "c12_from_name_sym_a", tier="thorough", bounds="one registry name with one symbolic ASCII byte at a seed-selected position (352 x string compare)", timeout=3000, mem=20, funcs=["TlsCipherSuite::from_name"]),
     H("c12", "c12_from_name_b", tier="thorough", bounds="second registry name, concrete", timeout=900, mem=12, funcs=["TlsCipherSuite::from_name", "TryFrom<&str>"]),
